@@ -342,6 +342,11 @@ func classifyLoop(l *natLoop) (string, string) {
 			return "consume", phi.Name() + " loses the non-empty literal prefix the loop test has just found"
 		}
 	}
+	for _, phi := range phis {
+		if b, ok := phi.Type().Underlying().(*types.Basic); ok && b.Kind() == types.String && cutStrip(l, phi) {
+			return "consume", phi.Name() + " is replaced by what strings.CutPrefix/CutSuffix leaves after removing a non-empty literal, and only when it was found"
+		}
+	}
 	// consume
 	for _, phi := range phis {
 		switch u := phi.Type().Underlying().(type) {
@@ -489,6 +494,72 @@ func prefixStrip(l *natLoop, phi *ssa.Phi, tests []*ssa.If) bool {
 		}
 	}
 	return false
+}
+
+// cutStrip: every in-loop edge of phi is the remainder of
+// strings.CutPrefix / CutSuffix(phi, <non-empty literal>) and the edge is taken
+// only under that call's found == true (otherwise the loop is left): each
+// iteration shortens the string by len(literal) >= 1.
+func cutStrip(l *natLoop, phi *ssa.Phi) bool {
+	cnt := 0
+	for i, e := range phi.Edges {
+		pred := l.header.Preds[i]
+		if !l.blocks[pred] {
+			continue
+		}
+		cnt++
+		ex, ok := e.(*ssa.Extract)
+		if !ok || ex.Index != 0 {
+			return false
+		}
+		call, ok := ex.Tuple.(*ssa.Call)
+		if !ok || len(call.Call.Args) != 2 || call.Call.Args[0] != ssa.Value(phi) {
+			return false
+		}
+		callee := call.Call.StaticCallee()
+		if callee == nil || (callee.String() != "strings.CutPrefix" && callee.String() != "strings.CutSuffix" && callee.String() != "bytes.CutPrefix" && callee.String() != "bytes.CutSuffix") {
+			return false
+		}
+		lit, ok := call.Call.Args[1].(*ssa.Const)
+		if !ok || lit.Value == nil || lit.Value.Kind() != constant.String || constant.StringVal(lit.Value) == "" {
+			return false
+		}
+		// the back edge is dominated by the found == true edge
+		guarded := false
+		for _, ref := range *call.Referrers() {
+			fx, ok := ref.(*ssa.Extract)
+			if !ok || fx.Index != 1 {
+				continue
+			}
+			for _, r2 := range *fx.Referrers() {
+				iff, ok := r2.(*ssa.If)
+				if !ok {
+					continue
+				}
+				t := iff.Block().Succs[0]
+				if len(t.Preds) == 1 && (t == pred || t.Dominates(pred)) {
+					guarded = true
+				}
+			}
+			// `if !found { return }`: the negation is the branch condition
+			for _, r2 := range *fx.Referrers() {
+				if u, ok := r2.(*ssa.UnOp); ok && u.Op == token.NOT {
+					for _, r3 := range *u.Referrers() {
+						if iff, ok := r3.(*ssa.If); ok {
+							f := iff.Block().Succs[1]
+							if len(f.Preds) == 1 && (f == pred || f.Dominates(pred)) {
+								guarded = true
+							}
+						}
+					}
+				}
+			}
+		}
+		if !guarded {
+			return false
+		}
+	}
+	return cnt > 0
 }
 
 func lenTestOf(cond ssa.Value, phi *ssa.Phi) bool {
